@@ -1,12 +1,51 @@
 /-
   ahp-driver <stream>: reads lines `id TAB payload`, writes `id TAB result` (DESIGN §4, driver protocol).
-  The model's executable definitions are the same terms the theorems in AHP/Props talk about.
+  One stream per property (`C01` … `C20`).  The model's executable definitions are the same terms the
+  theorems in AHP/Props talk about.
 -/
+import Driver.C01
+import Driver.C02
+import Driver.C03
+import Driver.C04
+import Driver.C05
+import Driver.C06
+import Driver.C07
+import Driver.C08
+import Driver.C09
+import Driver.C10
+import Driver.C11
+import Driver.C12
+import Driver.C13
+import Driver.C14
+import Driver.C15
+import Driver.C16
+import Driver.C17
 import Driver.C18
+import Driver.C19
+import Driver.C20
 
 def dispatch (stream : String) : Option (String → String) :=
   match stream with
-  | "coll" => some Driver.C18.run
+  | "C01" => some Driver.C01.run
+  | "C02" => some Driver.C02.run
+  | "C03" => some Driver.C03.run
+  | "C04" => some Driver.C04.run
+  | "C05" => some Driver.C05.run
+  | "C06" => some Driver.C06.run
+  | "C07" => some Driver.C07.run
+  | "C08" => some Driver.C08.run
+  | "C09" => some Driver.C09.run
+  | "C10" => some Driver.C10.run
+  | "C11" => some Driver.C11.run
+  | "C12" => some Driver.C12.run
+  | "C13" => some Driver.C13.run
+  | "C14" => some Driver.C14.run
+  | "C15" => some Driver.C15.run
+  | "C16" => some Driver.C16.run
+  | "C17" => some Driver.C17.run
+  | "C18" => some Driver.C18.run
+  | "C19" => some Driver.C19.run
+  | "C20" => some Driver.C20.run
   | _ => none
 
 partial def loop (h : IO.FS.Stream) (out : IO.FS.Stream) (f : String → String) : IO Unit := do
